@@ -42,6 +42,10 @@ func maker(seed *core.Rand, big bool, nilSlices bool) func() *workflow.Plan {
 		if nilSlices {
 			reshape(r, p)
 		}
+		if as := storelib.ObjectsOf(p).Actions; len(as) > 0 && r.Chance(0.06) {
+			// a request the codec refuses: Create must fail and store nothing (C14 plants these systematically)
+			as[r.Intn(len(as))].Req = storelib.AnyReq{Nonce: "n", X: storelib.Unencodable{C: make(chan int)}}
+		}
 		return p
 	}
 }
